@@ -155,6 +155,7 @@ func runCrash(c *ctx) error {
 		plans = append(plans, plan{name: fmt.Sprintf("crash/sigkill/%d", i), kill: time.Duration(20+c.rng.Intn(700)) * time.Millisecond})
 	}
 	plans = append(plans, plan{name: "crash/empty/server.keys", kill: 30 * time.Millisecond, edit: "server.keys"},
+		plan{name: "crash/early", kill: time.Millisecond, edit: "server.keys"},
 		plan{name: "crash/empty/gcaPubKey.dat-unregistered", point: "register:after-write", edit: "gcaPubKey.dat"},
 		plan{name: "crash/empty/equipment-reports.dat", point: "authorize:after-write", skip: 2, edit: "equipment-reports.dat"})
 	// the n-th write system call on each file the server writes: the process is killed on entry to
@@ -223,6 +224,20 @@ func runCrash(c *ctx) error {
 		}
 		code := cmd.ProcessState.ExitCode()
 		t.Emit(hx.J{"a": "Crash", "scn": p.name, "point": p.point, "skip": p.skip, "sigkill": killed, "exit": code})
+		opOK := true
+		if fi, err := os.Stat(filepath.Join(dir, "gcaTempPubKey.dat")); err != nil || fi.Size() != 32 {
+			opOK = false
+		}
+		for _, f := range []string{"username", "password"} {
+			if fi, err := os.Stat(filepath.Join(dir, "watttime_data", f)); err != nil || fi.Size() == 0 {
+				opOK = false
+			}
+		}
+		if !opOK {
+			// the child was killed before the operator's part of the set-up (directory, temporary key,
+			// credentials) was complete: that part is not the server's, it is completed here
+			s.NewDir(c.root, fmt.Sprintf("crashdir%d", i))
+		}
 		edited := false
 		if p.edit != "" {
 			if _, err := os.Stat(filepath.Join(dir, p.edit)); err == nil || p.edit == "server.keys" {
